@@ -462,7 +462,12 @@ impl ConfigActor {
         }
     }
 
-    fn inner_set_config(&mut self, key: ConfigKey, value: ConfigValue) {
+    fn inner_set_config(&mut self, key: ConfigKey, mut value: ConfigValue) {
+        // an imported value can carry more history than update_value ever keeps
+        if value.histories.len() > 100 {
+            let n = value.histories.len() - 100;
+            value.histories.drain(..n);
+        }
         self.tenant_index.insert_config(key.clone());
         let changed = match self.cache.get(&key) {
             // a tmp value was stored without a notification (see set_tmp_config)
